@@ -303,10 +303,24 @@ func (st *State) intBinopBV(op token.Token, a, b *Term, bits int, signed bool, t
 	case token.XOR:
 		return foldBV("bvxor", a, b)
 	case token.AND_NOT:
+		if b.Const {
+			m := new(big.Int).Sub(new(big.Int).Lsh(big.NewInt(1), uint(b.W)), big.NewInt(1))
+			return foldBV("bvand", a, BVT(new(big.Int).Xor(b.CI, m), b.W))
+		}
 		return foldBV("bvand", a, mk(SBV, b.W, "(bvnot %s)", b.S))
 	case token.QUO, token.REM:
 		if st.Branch(Eq(b, BVT(big.NewInt(0), bits))) {
 			st.throwRuntime("divide", "integer divide by zero")
+		}
+		if a.Const && b.Const {
+			x, y := a.CI, b.CI
+			if signed {
+				x, y = signedVal(a), signedVal(b)
+			}
+			if op == token.QUO {
+				return BVT(new(big.Int).Quo(x, y), bits)
+			}
+			return BVT(new(big.Int).Rem(x, y), bits)
 		}
 		if op == token.QUO {
 			return bvBin(pick("bvsdiv", "bvudiv"), a, b)
@@ -338,6 +352,24 @@ func (st *State) intBinopBV(op token.Token, a, b *Term, bits int, signed bool, t
 			// count wider than operand: saturate at bits
 			big_ := bvCmp("bvuge", b, BVT(big.NewInt(int64(bits)), bbits), false)
 			cnt = Ite(big_, BVT(big.NewInt(int64(bits)), bits), BVExtract(b, bits-1, 0))
+		}
+		if a.Const && cnt.Const {
+			c := cnt.CI
+			if c.Cmp(big.NewInt(int64(bits))) >= 0 {
+				if op == token.SHR && signed && signedVal(a).Sign() < 0 {
+					return BVT(big.NewInt(-1), bits)
+				}
+				return BVT(big.NewInt(0), bits)
+			}
+			n := uint(c.Int64())
+			switch {
+			case op == token.SHL:
+				return BVT(new(big.Int).Lsh(a.CI, n), bits)
+			case signed:
+				return BVT(new(big.Int).Rsh(signedVal(a), n), bits)
+			default:
+				return BVT(new(big.Int).Rsh(a.CI, n), bits)
+			}
 		}
 		switch {
 		case op == token.SHL:
